@@ -1268,6 +1268,8 @@ def _apply_to_model(m, op):
         return ('ok', (k, v))
     if kind == 'reinit':
         return ('ok', None)                        # snapshot; clear(); update(snapshot): same mapping as before
+    if kind == 'partial-iter':
+        return ('ok', None)                        # an iteration given up part-way: reading never changes a mapping
     raise AssertionError('unknown op %r' % (op,))
 
 
@@ -2164,6 +2166,219 @@ def bulk_enum_cases(ctx, name_sets=None, flavour='bulk-enum'):
                 yield {'cls': cls, 'start': st, 'ops': out, 'enum': True, 'flavour': flavour}
 
 
+# ---------------------------------------------------------------------------
+# round 12: ABANDONED iterations.  Pseudo-op ['partial-iter', view, k, keep, early]: an iteration over `view` of the live
+# object is started, advanced k steps and given up (keep = the iterator object stays alive while the following
+# observations run; otherwise it is dropped at once).  The model is unchanged by it; what it yielded must be the model's
+# prefix and the ordinary full observation that follows must still see the whole mapping.  early = the full observation
+# of the PRECEDING operation (or of construction) is left out, so that the abandoned iteration is the first iteration the
+# object sees after that operation (the state is judged all the same: by the observation after this pseudo-op).
+
+PITER_VIEWS = ('iter', 'for-break', 'next', 'keys', 'items', 'values', 'zip', 'any', 'islice', 'enumerate-break',
+               'unpack', 'two', 'two-views', 'copy-iter', 'in-iter', 'resume')
+PITER_HISTORIES = {'quick': 320, 'thorough': 26000}
+PITER_MAX_BASE_OPS = 10
+PITER_ENUM_KS = {'quick': 1, 'thorough': 3}
+PITER_ENUM_STARTS = (('Deb822', 'empty'), ('Deb822', 'dict'), ('Deb822Dict', 'pairs'), ('Deb822', 'parsed-str'),
+                     ('Deb822', 'parsed-bytes'), ('Deb822', 'parsed-lines'), ('Deb822', 'iter'), ('Deb822', 'lazy'),
+                     ('Deb822Dict', 'dict'))
+PITER_ENUM_AFTER = ('construction', 'set-new', 'set-variant', 'del', 'pop', 'popitem', 'setdefault-new', 'update',
+                    'first', 'last', 'before', 'after', 'sort', 'failed-del', 'copy', 'cycle', 'clear-set')
+PITER_ENUM_NAMES = (('Package', 'PACKAGE'), ('version', 'Version'), ('Architecture', 'architecture'),
+                    ('X-Foo', 'x-foo'), ('Description', 'DESCRIPTION'))
+
+
+def piter_enum_cases(ctx):
+    """every start kind x every kind of operation the abandoned iteration comes right after x every view (k rotating in
+    quick, 0..2 in thorough; keep alternating), followed by a value overwrite and a second abandoned iteration"""
+    idx = 0
+    names = PITER_ENUM_NAMES
+    for si, (cls, skind) in enumerate(PITER_ENUM_STARTS):
+        for ai, after in enumerate(PITER_ENUM_AFTER):
+            for vi, view in enumerate(PITER_VIEWS):
+                if view == 'resume':
+                    continue
+                if ctx.quick and (si + ai + vi + ctx.seed) % 2:
+                    continue                    # quick: half of the combinations, the other half under the next seed
+                for kk in range(PITER_ENUM_KS[ctx.tier]):
+                    idx += 1
+                    if not ctx.mine(idx):
+                        continue
+                    k = (idx + kk) % 3 if ctx.quick else kk
+                    keep = (idx // 3) % 2
+                    pairs = [] if skind == 'empty' else [[g[idx % 2], 's%d' % i] for i, g in enumerate(names[:4])]
+                    start = {'kind': skind, 'pairs': pairs}
+                    if skind not in ('empty', 'dict', 'pairs'):
+                        start.update({'sep': ': ', 'lead': ''})
+                    first = pairs[0][0] if pairs else 'Package'
+                    third = pairs[2][0] if pairs else 'Package'
+                    pre = {'construction': [], 'set-new': [['set', names[4][0], 'n0']],
+                           'set-variant': [['set', names[1][1 - idx % 2], 'n1']],
+                           'del': [['del', names[1][1 - idx % 2]]], 'pop': [['pop', names[2][1 - idx % 2], 0]],
+                           'popitem': [['popitem']], 'setdefault-new': [['setdefault', names[4][1], 'n2']],
+                           'update': [['update', [[names[4][0], 'n3'], [names[0][1 - idx % 2], 'n4']], 'pairs']],
+                           'first': [['first', third.swapcase()]], 'last': [['last', first.swapcase()]],
+                           'before': [['before', third, first.swapcase()]], 'after': [['after', first, third.swapcase()]],
+                           'sort': [['sort', 'default']], 'failed-del': [['del', 'No-Such-Field']],
+                           'copy': [['copy', 'copy', 'new']], 'cycle': [['cycle', 'str']],
+                           'clear-set': [['clear'], ['set', names[3][0], 'n5'], ['set', names[0][1], 'n6']]}[after]
+                    if not pairs:
+                        pre = [['set', 'Package', 'e0'], ['set', 'version', 'e1'], ['set', 'Architecture', 'e2']] + \
+                            [op for op in pre if op[0] in ('set', 'setdefault', 'update', 'sort', 'clear', 'copy')]
+                    if cls == 'Deb822Dict':
+                        pre = [op for op in pre if op[0] != 'cycle']
+                    ops = [list(op) for op in pre]
+                    ops.append(['partial-iter', view, k, keep, 1])
+                    ops.append(['set', 'PACKAGE', 'w0'])                     # value overwrite: no structural change
+                    ops.append(['partial-iter', 'resume' if keep else PITER_VIEWS[(idx + 3) % 14], 1, 0, 0])
+                    yield {'cls': cls, 'start': start, 'ops': ops, 'enum': True, 'flavour': 'partial-iter-enum'}
+
+
+def _piter_op(r, n, early, resume_ok=False):
+    view = r.choice(PITER_VIEWS[:-1] + (('resume', 'resume', 'resume') if resume_ok else ()))
+    k = r.choice([0, 1, 1, 1, 2, 2, 3, max(0, n - 1), n, n + 1])
+    return ['partial-iter', view, k, 1 if r.random() < 0.35 else 0, 1 if early else 0]
+
+
+def gen_piter_history(r, tier):
+    """An ordinary classic history (cut to PITER_MAX_BASE_OPS operations) with abandoned iterations put in: right after
+    construction and after about half of the operations, three out of four as the FIRST iteration after that operation."""
+    case = gen_history(r, tier, 'classic')
+    base = case['ops'][:PITER_MAX_BASE_OPS]
+    m = CIListMap(case['start']['pairs'])
+    ops = []
+    for i in range(len(base) + 1):
+        if i:
+            ops.append(base[i - 1])
+            try:
+                _apply_to_model(m, base[i - 1])
+            except Exception:
+                pass
+        if r.random() < (0.6 if i == 0 else 0.5):
+            ops.append(_piter_op(r, len(m), r.random() < 0.75))
+            if r.random() < 0.3:
+                ops.append(_piter_op(r, len(m), False, resume_ok=True))
+    if not any(op[0] == 'partial-iter' for op in ops):
+        ops.append(_piter_op(r, len(m), True))
+    case['ops'] = ops
+    case['flavour'] = 'partial-iter'
+    return case
+
+
+def partial_iterate(d, view, k, kept):
+    """Start an iteration over `view` of d, take k elements, give it up.
+    Returns (what was yielded, 'keys'|'items'|'values'|None = which model list it is a slice of, live iterator objects,
+    offset of the slice)."""
+    got, what, its, off = [], 'keys', [], 0
+    if view == 'iter':
+        it = iter(d)
+        its.append(it)
+        for _ in range(k):
+            try:
+                got.append(next(it))
+            except StopIteration:
+                break
+    elif view == 'for-break':
+        for x in d:
+            if len(got) >= k:
+                break
+            got.append(x)
+    elif view == 'next':
+        x = next(iter(d), _MISSING)
+        if x is not _MISSING:
+            got.append(x)
+    elif view in ('keys', 'items', 'values'):
+        what = view
+        it = iter(getattr(d, view)())
+        its.append(it)
+        for _ in range(k):
+            try:
+                got.append(next(it))
+            except StopIteration:
+                break
+    elif view == 'zip':
+        z = zip(range(k), d)
+        its.append(z)
+        got = [x for _, x in z]
+    elif view == 'any':
+        def seen(x):
+            got.append(x)
+            return len(got) >= k
+        any(seen(x) for x in d)
+    elif view == 'islice':
+        got = list(itertools.islice(d, k))
+    elif view == 'enumerate-break':
+        for i, x in enumerate(d.keys()):
+            if i >= k:
+                break
+            got.append(x)
+    elif view == 'unpack':
+        what = None
+        try:
+            if k % 2:
+                (x,) = d
+            else:
+                x, y = d.keys()
+        except ValueError:
+            pass
+    elif view == 'in-iter':
+        what = None
+        it = iter(d)
+        its.append(it)
+        ('no-such-field-%d' % k) in itertools.islice(it, k)
+    elif view == 'two':
+        a, b = iter(d), iter(d)
+        its.extend([a, b])
+        second = []
+        for _ in range(k):
+            try:
+                got.append(next(a))
+                second.append(next(b))
+            except StopIteration:
+                break
+        if [plain(x) for x in second] != [plain(x) for x in got[:len(second)]] or len(second) != len(got):
+            raise Mismatch('abandoned-iteration/two-iterators-advanced-alternately/iterators-disagree',
+                           'two iterators over the same paragraph advanced alternately gave %r and %r' % (got, second))
+    elif view == 'two-views':
+        what = 'items'
+        a, b = iter(d.items()), iter(d.keys())
+        its.extend([a, b])
+        second = []
+        for _ in range(k):
+            try:
+                got.append(next(a))
+                second.append(next(b))
+            except StopIteration:
+                break
+        if [plain(x) for x in second] != [plain(x[0]) for x in got[:len(second)]] or len(second) != len(got):
+            raise Mismatch('abandoned-iteration/two-iterators-advanced-alternately/iterators-disagree',
+                           'iterators over items() and keys() of the same paragraph advanced alternately gave %r and %r'
+                           % (got, second))
+    elif view == 'copy-iter':
+        c = d.copy()
+        it = iter(c)
+        its.extend([c, it])
+        for _ in range(k):
+            try:
+                got.append(next(it))
+            except StopIteration:
+                break
+    elif view == 'resume':
+        if not kept:
+            return None, None, [], 0
+        what, it, off = kept[-1]
+        if what is None:
+            return None, None, [], 0
+        for _ in range(k):
+            try:
+                got.append(next(it))
+            except StopIteration:
+                break
+    else:
+        raise AssertionError(view)
+    return got, what, its, off
+
+
 def tolerated_cases(ctx):
     for tclass in sorted(TOLERATED):
         for a, b in TOLERATED[tclass]:
@@ -2208,6 +2423,12 @@ def cases(ctx):
     r = ctx.rng('histories', 'repeat')
     for _ in range(ctx.size(REPEAT_HISTORIES['quick'], REPEAT_HISTORIES['thorough'])):
         yield gen_history(r, ctx.tier, 'repeat')
+    # ---- round 12: abandoned iterations
+    for case in piter_enum_cases(ctx):
+        yield case
+    r = ctx.rng('histories', 'partial-iter')
+    for _ in range(ctx.size(PITER_HISTORIES['quick'], PITER_HISTORIES['thorough'])):
+        yield gen_piter_history(r, ctx.tier)
     # ---- round 9: names with blank-like characters / case variants of different length
     for case in special_enum_cases(ctx):
         yield case
@@ -2522,7 +2743,8 @@ def op_keys(op):
 def op_label(op):
     kind = op[0]
     return {'first': 'order_first', 'last': 'order_last', 'before': 'order_before', 'after': 'order_after',
-            'sort': 'sort_fields', 'cycle': 'dump-parse', 'reinit': 'clear-update'}.get(kind, kind)
+            'sort': 'sort_fields', 'cycle': 'dump-parse', 'reinit': 'clear-update',
+            'partial-iter': 'abandoned-iteration'}.get(kind, kind)
 
 
 def classify_reorder(rec, m, op):
@@ -2704,6 +2926,10 @@ def execute(rec, case):
     origin = st['kind']     # start kind while the object is the start object itself; 'copy' / 'cycle' afterwards
     last_emptied = -1       # index of the last operation that emptied the current object
     prev_kind = None
+    # round 12 (abandoned iterations)
+    kept = []               # [model list name, live iterator, elements taken so far] of iterations given up but kept alive
+    kept_valid = False      # nothing but reads happened to the current object since the last of them was started
+    unobserved = None       # kind of the operation whose full observation was left out (the next pseudo-op judges it)
 
     universe = []
     for k in [p[0] for p in st['pairs']] + [k for op in ops for k in op_keys(op)]:
@@ -2733,7 +2959,11 @@ def execute(rec, case):
             info['repeat'] = True
             count_repeat_start(rec, st, rep_names)
             rec.mon('M.repeat')
-        bad = observe(d, m, universe, has_dump, rec)
+        if ops and ops[0][0] == 'partial-iter' and ops[0][4]:
+            bad = None
+            unobserved = 'construction'
+        else:
+            bad = observe(d, m, universe, has_dump, rec)
         if bad:
             if rep_names and not bad[0].startswith('repeated-field'):
                 bad = ('repeated-field-in-text/' + bad[0], bad[1])
@@ -2930,6 +3160,48 @@ def execute(rec, case):
                         d.update([(k, v) for k, v in op[1]])
                 elif kind == 'clear':
                     d.clear()
+                elif kind == 'partial-iter':
+                    view, k = op[1], (1 if op[1] == 'next' else max(1, op[2]) if op[1] == 'any' else op[2])
+                    label = 'abandoned-iteration/%s' % view
+                    since = unobserved if unobserved is not None else 'full-observation'
+                    got, what, its, off = partial_iterate(d, view, k, kept if kept_valid else [])
+                    if got is None:
+                        rec.count('piter:resume-skipped')
+                    else:
+                        rec.count('piter:view:%s' % view)
+                        rec.count('piter:first-iteration-since:%s' % since)
+                        rec.count('piter:steps:%s' % ('0' if k == 0 else 'all' if k == len(m) else
+                                                       'past-the-end' if k > len(m) else 'some'))
+                        rec.count('piter:%s:%s' % ('early' if unobserved is not None else 'late',
+                                                   'kept' if op[3] else 'dropped'))
+                        rec.mon('M.piter')
+                        if unobserved is not None:
+                            rec.mon('M.piter.first-iteration')
+                        if what is not None:
+                            rec.mon('M.piter.prefix')
+                            full = m.keys() if what == 'keys' else m.items() if what == 'items' else m.values()
+                            want = full[off:off + k]
+                            have = [(plain(x[0]), plain(x[1])) if what == 'items' else plain(x) for x in got]
+                            if have != want:
+                                raise Mismatch('%s/yielded-wrong-%s' % (label, what),
+                                               'op #%d %r (first iteration since %s) yielded %r, model %s[%d:%d] = %r'
+                                               % (step, op, since, have, what, off, off + k, want))
+                        if view == 'copy-iter':
+                            bad = observe(its[0], m, universe, has_dump, rec)
+                            if bad:
+                                raise Mismatch('%s/copy-%s' % (label, bad[0]), 'op #%d %r: the copy whose iteration '
+                                               'was given up after %d steps: %s' % (step, op, k, bad[1]))
+                        if view == 'resume':
+                            kept[-1][2] = off + len(got)
+                            rec.count('piter:resumed')
+                        elif op[3] and its and what is not None and view in ('iter', 'keys', 'items', 'values'):
+                            kept.append([what, its[-1], len(got)])
+                            kept = kept[-3:]
+                            kept_valid = True
+                        elif op[3] and its:
+                            kept.append([None, its, 0])        # only kept alive
+                            kept = kept[-3:]
+                        del its
                 elif kind == 'popitem':
                     result = d.popitem()
                 elif kind == 'reinit':
@@ -3011,6 +3283,10 @@ def execute(rec, case):
                     return (('%s/wrong-exception-%s-instead-of-%s' % (label, type(raised).__name__, expect),
                              'op %r raised %r, expected %s' % (op, raised, expect), step + 1), info)
 
+            if kind not in ('partial-iter', 'get', 'in'):
+                kept_valid = False          # (an iterator is never advanced after anything but reads)
+            if kind == 'copy' or kind == 'cycle':
+                kept = []
             # ---- which names left / (re-)entered the mapping (the model is final for this operation here)
             if kind in ('set', 'del', 'pop', 'popitem', 'clear', 'setdefault', 'update'):
                 now = set(k.lower() for k in m.keys())
@@ -3079,6 +3355,15 @@ def execute(rec, case):
                 ghosts = ghosts[-4:]
 
             # ---- full observation after EVERY operation, failed ones included
+            if step + 1 < len(ops) and ops[step + 1][0] == 'partial-iter' and ops[step + 1][4] and kind != 'partial-iter':
+                # ... but for the one right before an abandoned iteration that wants to be the FIRST iteration after this
+                # operation: the state is judged by the observation that follows that pseudo-op (the model is the same)
+                unobserved = 'failed-' + kind if expect != 'ok' else kind
+                rec.count('piter:observation-left-to-the-pseudo-op')
+                continue
+            if kind == 'partial-iter':
+                rec.mon('M.piter.after')
+            unobserved = None
             rec.mon('M')
             if expect != 'ok':
                 rec.mon('M.failed-op')
